@@ -139,7 +139,7 @@ func planRow(ents []pent, strat int) string {
 		} else {
 			c.Validity.Until = now.Add(-24 * time.Hour)
 		}
-		c.Validity.IsSet, c.Validity.IsStatic, c.Validity.UntilIsStatic = true, true, true
+		c.Validity.IsSet, c.Validity.IsStatic = true, true
 		c.Validity.From = now.Add(-1000 * 24 * time.Hour)
 		m := &db.Metadata{LastConfigUpdate: ptm(e.cfgT)}
 		a := &db.BuildArtifact{}
